@@ -61,7 +61,8 @@ def main(argv: List[str]) -> int:
         ms = docs.gen_models(lo, lo + n // 2 - 1, with_props, False, rep)
         lo += n // 2
         for seed, dm in ms:
-            for route in ('parsed', 'built', 'built_notes' if seed % 2 else 'built_shared_notes'):
+            for route in ('parsed', 'built', 'built_notes' if seed % 2 else 'built_shared_notes',
+                          ('morphed:refs', 'morphed:names', 'morphed:settings', 'moved')[seed % 4]):
                 tid += 1
                 items[tid] = {'tid': tid, 'route': route, 'doc': dm['doc'], 'model': dm['model'], 'fseed': seed, 'pinned': {},
                               'seed': seed, 'variant': with_props}
